@@ -288,6 +288,9 @@ func init() {
 		e.block(g, "vfIdle", quiet, func() { g.idleWaiter = false; c.finish(nil) })
 		return nil, callBlocked
 	}
+	vfIntrinsics["vfConcBool"] = func(c *callCtx, a []Value) (Value, callStatus) {
+		return Bool(c.e.branch(termArg(a[0]))), callDone
+	}
 	vfIntrinsics["vfSymbolic"] = func(c *callCtx, a []Value) (Value, callStatus) {
 		return Bool(!c.e.opts.Concrete && c.e.opts.ForcedModel == nil), callDone
 	}
